@@ -42,7 +42,7 @@ class L2:
 
         def random_bits(sftype, n, signed=False):
             self.rb_calls += 1
-            if self.rb_cap is not None and self.rb_calls > self.rb_cap:
+            if self.rb_cap is not None and self.rb_calls > self.rb_cap and env.mode == 'sym':      # replays run the real sub-protocols, which draw bits of their own
                 env.cut(f'more than {self.rb_cap} calls of random_bits on one path (restart of a rejection loop)')
             issec = isinstance(sftype, type) and issubclass(sftype, mpc.SecureObject)
             field = sftype.field if issec else sftype
